@@ -197,10 +197,20 @@ func runC16(r *Run) {
 			line = line[:j]
 		}
 		if json.Unmarshal([]byte(line), &sum) == nil {
+			total := 0
 			for k, v := range sum {
 				r.Dist["hammer:"+k] = v
-				r.Evaluations += v
+				total += v
 			}
+			// counted: the guaranteed minimum (the child runs until it has done that much); the operations beyond it depend
+			// on how fast the machine is and are reported separately
+			floor := int(c16MinOps(budget))
+			if total < floor {
+				floor = total
+			}
+			r.Evaluations += floor
+			r.Extra["hammer_operations_total"] = total
+			r.Extra["hammer_operations_counted_as_evaluations"] = floor
 		}
 	}
 	// (c) race reports (thorough, -race build): every report must be one of the recorded findings
@@ -231,6 +241,9 @@ func runC16(r *Run) {
 	r.Finish("16-32 goroutines hammer one ExtAuthZFilter per workload (login redirects, callbacks, application requests on shared and on expiring sessions, logouts) for static and for discovered endpoints, memory and Redis stores, while other goroutines reconcile the client secret, rewrite the watched CA file and load TLS configs; run in a child process, built with the race detector, with a watchdog per check (quick: 6 s, thorough: 60 s): fatal map faults, hangs, and every race report classified by its two access stacks; the recorded findings are confirmed from the regenerated shared-write table")
 }
 
+// c16MinOps: the work the hammer does whatever the load (2000 operations per second of budget)
+func c16MinOps(budget int) int64 { return int64(2000 * budget) }
+
 func fileExists(p string) bool { _, err := os.Stat(p); return err == nil }
 
 func tail(s string, n int) string {
@@ -247,6 +260,7 @@ func runC16Hammer(r *Run) {
 	fmt.Sscanf(os.Getenv("C16_BUDGET_S"), "%d", &budget)
 	counts := map[string]*int64{}
 	var cmu sync.Mutex
+	var totalOps int64
 	count := func(k string) {
 		cmu.Lock()
 		p := counts[k]
@@ -256,6 +270,7 @@ func runC16Hammer(r *Run) {
 		}
 		cmu.Unlock()
 		atomic.AddInt64(p, 1)
+		atomic.AddInt64(&totalOps, 1)
 	}
 	// watchdog-wrapped check
 	guarded := func(what string, f func()) {
@@ -366,6 +381,14 @@ func runC16Hammer(r *Run) {
 	_, _ = sc.Reconcile(ctx, ctrl.Request{NamespacedName: types.NamespacedName{Namespace: "ns", Name: "sec"}})
 
 	deadline := time.Now().Add(time.Duration(budget) * time.Second)
+	// the hammer runs for its time budget AND until it has done a minimum amount of work: on a loaded machine it runs
+	// longer (at most five budgets) instead of doing less, so that what the evidence reports does not depend on the load
+	hardDeadline := time.Now().Add(time.Duration(5*budget) * time.Second)
+	minOps := c16MinOps(budget)
+	running := func() bool {
+		now := time.Now()
+		return now.Before(deadline) || (atomic.LoadInt64(&totalOps) < minOps && now.Before(hardDeadline))
+	}
 	var wg sync.WaitGroup
 	// waves of sessions that sit idle until they are past the memory store's 1 s idle timeout and are then looked up by
 	// all request goroutines at the same moment (an expired session is dropped by whichever lookup sees it first)
@@ -374,7 +397,7 @@ func runC16Hammer(r *Run) {
 	wg.Add(1)
 	go func() {
 		defer wg.Done()
-		for k := 0; time.Now().Before(deadline); k++ {
+		for k := 0; running(); k++ {
 			ids := fmt.Sprintf("wave-%d", k)
 			for _, oc := range all {
 				for j := 0; j < 8; j++ {
@@ -397,7 +420,7 @@ func runC16Hammer(r *Run) {
 			cookieName := cookieNameFor(name)
 			shared := fmt.Sprintf("shared-%s", name) // a session id all goroutines of this workload fight over
 			var mySid, myState, myNonce string
-			for i := 0; time.Now().Before(deadline); i++ {
+			for i := 0; running(); i++ {
 				guarded(name, func() {
 					h := map[string]string{"x-app": name}
 					path := "/" + name + "/page"
@@ -466,7 +489,7 @@ func runC16Hammer(r *Run) {
 		wg.Add(1)
 		go func(g int) {
 			defer wg.Done()
-			for i := 0; time.Now().Before(deadline); i++ {
+			for i := 0; running(); i++ {
 				var sid, state, nonce string
 				guarded("storm-redirect", func() {
 					resp, err := filter.Check(context.Background(), httpReq("https", "app", "/storm/page", "", map[string]string{"x-app": "storm"}))
@@ -507,7 +530,7 @@ func runC16Hammer(r *Run) {
 		wg.Add(1)
 		go func(g int) {
 			defer wg.Done()
-			for i := 0; time.Now().Before(deadline); i++ {
+			for i := 0; running(); i++ {
 				oc := mk(fmt.Sprintf("prov%d", g), func(o *oidcv1.OIDCConfig) {
 					o.ConfigurationUri, o.AuthorizationUri, o.TokenUri = fmt.Sprintf("%s/.well-known/p%d-%d", disc.URL, g, i%400), "", ""
 				})
@@ -523,7 +546,7 @@ func runC16Hammer(r *Run) {
 	wg.Add(1)
 	go func() {
 		defer wg.Done()
-		for round := 0; time.Now().Before(deadline); round++ {
+		for round := 0; running(); round++ {
 			wcfg := &configv1.Config{}
 			for k := 0; k < 24; k++ {
 				name := fmt.Sprintf("w%d", k)
@@ -558,7 +581,7 @@ func runC16Hammer(r *Run) {
 	wg.Add(1)
 	go func() {
 		defer wg.Done()
-		for i := 0; time.Now().Before(deadline); i++ {
+		for i := 0; running(); i++ {
 			s := &corev1.Secret{}
 			key := types.NamespacedName{Namespace: "ns", Name: "sec"}
 			if cl.Get(ctx, key, s) == nil {
@@ -574,7 +597,7 @@ func runC16Hammer(r *Run) {
 	wg.Add(2)
 	go func() {
 		defer wg.Done()
-		for i := 0; time.Now().Before(deadline); i++ {
+		for i := 0; running(); i++ {
 			p := ca1.pem
 			if i%2 == 1 {
 				p = ca2.pem
@@ -593,7 +616,7 @@ func runC16Hammer(r *Run) {
 		var lp internal.TLSConfigPool
 		var lcancel context.CancelFunc = func() {}
 		defer func() { lcancel() }()
-		for i := 0; time.Now().Before(deadline); i++ {
+		for i := 0; running(); i++ {
 			if i%60 == 0 {
 				lcancel()
 				var lctx context.Context
